@@ -135,6 +135,7 @@ class StoreModel:
         self.ctor_params: List[str] = []
         self._counter = 0
         self.join_sites: List[Tuple[Func, ast.Call, Term]] = []
+        self.expr_terms: Dict[int, Term] = {}
         init = prog.find_method(cls.qname, "__init__")
         self.init = init
         if init is not None and f_cls(init) is cls:
@@ -285,6 +286,13 @@ class StoreModel:
 
     # ------------------------------------------------------------------ expressions
     def _expr(self, e: ast.AST, f: Func, env: Dict[str, Term], conds, out: List[Effect], handlers: List[str], depth: int) -> Term:
+        t = self._expr0(e, f, env, conds, out, handlers, depth)
+        tab = getattr(self, "expr_terms", None)
+        if tab is not None:
+            tab[id(e)] = t
+        return t
+
+    def _expr0(self, e: ast.AST, f: Func, env: Dict[str, Term], conds, out: List[Effect], handlers: List[str], depth: int) -> Term:
         if isinstance(e, ast.Constant):
             return ("lit", e.value) if isinstance(e.value, str) else ("const", e.value)
         if isinstance(e, ast.Name):
